@@ -1,7 +1,7 @@
 \* every named rule at every feasible position of all 20 bases: witnesses (Violate_r / Use_u) and valid twins (Benign)
 SPECIFICATION Spec
 CONSTANTS
-  BaseIds = {"b01", "b02", "b03", "b04", "b05", "b06", "b07", "b08", "b09", "b10", "b11", "b12", "b13", "b14", "b15", "b16", "b17", "b18", "b19", "b20"}
+  BaseIds = {"b01", "b02", "b03", "b04", "b05", "b06", "b07", "b08", "b09", "b10", "b11", "b12", "b13", "b14", "b15", "b16", "b17", "b18", "b19", "b20", "b21", "b22", "b23", "b24", "b25", "b26", "b27", "b28", "b29", "b30", "b31", "b32"}
   PosSet = {"file", "block", "nested", "macro"}
   Mode = {"witness", "benign"}
   Forms = {}
